@@ -103,6 +103,14 @@ def large_undirected():
     return sorted(g.items())
 
 
+def beyond_256():
+    """graphs with more than 256 nodes / degrees above 255 (narrow counters, CPython's small-integer cache)."""
+    g = {'K260': _und(260, [(i, j) for i in range(260) for j in range(i + 1, 260)]),
+         'star300': _und(300, [(0, i) for i in range(1, 300)]),
+         'path300': _und(300, [(i, i + 1) for i in range(299)])}
+    return sorted(g.items())
+
+
 def with_reversal(graphs):
     out = {}
     for k, A in graphs.items():
@@ -160,6 +168,8 @@ def family(tag):
         _FAM[tag] = trees.shape_family(8) + trees.shape_family(9)
     if tag == 'large_und' and tag not in _FAM:
         _FAM[tag] = large_undirected()
+    if tag == 'xlarge_und' and tag not in _FAM:
+        _FAM[tag] = large_undirected() + beyond_256()
     if tag == 'bintree8_und' and tag not in _FAM:
         from bctmc import trees
         _FAM[tag] = trees.shape_family(8)
